@@ -365,6 +365,54 @@ theorem C17_subst_undefined_example :
 
 /-! ## collapse_all terminates -/
 
+/-- **Unnamed instances.** `collapse_all` names them `InstanceAuto<k>`, `k` counting the unnamed
+instances in processing order from 1: named instances keep their name, no effective name is empty
+or pass-through, two different unnamed instances get different names — hence (PREFIX: the auto name
+is plain, SUFFIX: always) the same entity name copied from two of them stays different, and every
+produced name carries its own instance's name in the shape of the style. -/
+theorem C17_auto_names (names : List (List Char)) (i j : Nat) (hi : i < names.length)
+    (hj : j < names.length) (hij : i < j) (ent : List Char) (hent : passThrough ent = false) :
+    (assignAuto 0 names).length = names.length ∧
+    (names[i].isEmpty = false → autoFixup .pre names i ent = names[i] ++ '-' :: ent) ∧
+    (names[i].isEmpty = true →
+        autoFixup .pre names i ent
+          = autoName (((names.take i).filter (·.isEmpty)).length + 1) ++ '-' :: ent ∧
+        autoFixup .suf names i ent
+          = ent ++ '-' :: autoName (((names.take i).filter (·.isEmpty)).length + 1)) ∧
+    (names[i].isEmpty = true → names[j].isEmpty = true →
+        autoFixup .pre names i ent ≠ autoFixup .pre names j ent ∧
+        autoFixup .suf names i ent ≠ autoFixup .suf names j ent) := by
+  have gi : (assignAuto 0 names).getD i [] = if names[i].isEmpty then
+      autoName (0 + ((names.take i).filter (·.isEmpty)).length + 1) else names[i] := by
+    rw [List.getD_eq_getElem?_getD, List.getElem?_eq_getElem (by rw [assignAuto_length]; exact hi)]
+    simpa using assignAuto_getElem 0 names i hi
+  have gj : (assignAuto 0 names).getD j [] = if names[j].isEmpty then
+      autoName (0 + ((names.take j).filter (·.isEmpty)).length + 1) else names[j] := by
+    rw [List.getD_eq_getElem?_getD, List.getElem?_eq_getElem (by rw [assignAuto_length]; exact hj)]
+    simpa using assignAuto_getElem 0 names j hj
+  refine ⟨assignAuto_length 0 names, ?_, ?_, ?_⟩
+  · intro h
+    simp only [autoFixup, gi, h, Bool.false_eq_true, if_false, fixupName_pre _ _ hent]
+  · intro h
+    simp only [autoFixup, gi, h, if_true, Nat.zero_add, fixupName_pre _ _ hent, fixupName_suf _ _ hent,
+      and_self]
+  · intro ei ej
+    have hne := assignAuto_distinct names i j hi hj hij ei ej
+    have hne' : (assignAuto 0 names).getD i [] ≠ (assignAuto 0 names).getD j [] := by
+      rw [List.getD_eq_getElem?_getD, List.getD_eq_getElem?_getD,
+        List.getElem?_eq_getElem (by rw [assignAuto_length]; exact hi),
+        List.getElem?_eq_getElem (by rw [assignAuto_length]; exact hj)]
+      simpa using hne
+    constructor
+    · simp only [autoFixup, fixupName_pre _ _ hent]
+      intro h
+      exact hne' (List.append_cancel_right h)
+    · simp only [autoFixup, fixupName_suf _ _ hent]
+      intro h
+      have h2 := List.append_cancel_left h
+      simp only [List.cons.injEq, true_and] at h2
+      exact hne' h2
+
 /-- **Termination with a bound.** `collapseAll` is a total function (it returns, raises
 RecursionError or raises FileNotFoundError) and performs at most `n₀ · Σ_{k<limit} b^k` collapses,
 `b` = maximal number of nested instances in one file, `n₀` = instances in the map. -/
